@@ -108,6 +108,9 @@ def check_case(ctx, case):
         wins = [set((1, 2, 3)), set((0, 1, 2))] if k == 'eps3' else [set((1, 2, 3, 4)), set((0, 1, 2, 3))]
         indom = any(set(t) <= w for w in wins)
         fn = dirac.epsilon_tensor if k == 'eps3' else dirac.epsilon_tensor_rank4
+        if case.get('itype'):
+            # indices as they come out of numpy index arrays (any integer width / signedness, floats with integer value)
+            t = tuple(getattr(np, case['itype'])(i) for i in t)
         try:
             got = fn(*t)
         except ValueError:
@@ -121,9 +124,11 @@ def check_case(ctx, case):
         import scipy.special as sp
         import autograd.numpy as anp
         n, x = case['n'], case['x']
+        if case.get('ntype'):
+            n = getattr(np, case['ntype'])(n)      # the order taken from a numpy integer array
         o = pe.pseudo_Obs(x, 0.01 * x, 'e', samples=40)
         xv = o.value
-        dK = -0.5 * (sp.kn(n - 1, xv) + sp.kn(n + 1, xv))    # K_{-1} = K_1
+        dK = -0.5 * (sp.kn(int(n) - 1, xv) + sp.kn(int(n) + 1, xv))    # K_{-1} = K_1
         K = sp.kn(n, xv)
         forms = [('direct', lambda: pe.derived_observable(lambda v, **kw: pe.special.kn(n, v[0]), [o]), K, dK),
                  ('scaled', lambda: pe.derived_observable(lambda v, **kw: 3.0 * pe.special.kn(n, v[0]) / anp.sqrt(v[0]), [o]),
@@ -139,7 +144,7 @@ def check_case(ctx, case):
                 continue
             if nm == 'array':
                 # second component depends on 2*o only: delta = 2*K_n'(2x) * 2 * delta_o
-                der = 2 * (-0.5 * (sp.kn(n - 1, 2 * xv) + sp.kn(n + 1, 2 * xv))) * 2
+                der = 2 * (-0.5 * (sp.kn(int(n) - 1, 2 * xv) + sp.kn(int(n) + 1, 2 * xv))) * 2
             if not close(float(r.value), val, rtol=1e-10):
                 probs.append(('violation', 'kn-value-' + nm, 'n=%d x=%r: %r vs %r' % (n, x, float(r.value), val)))
             d = np.asarray(r.deltas['e'])
@@ -196,6 +201,12 @@ def all_cases():
     # the domain is {0,1,2}^3 u {1,2,3}^3 (resp. rank 4); everything around it, negative indices included, is outside
     cases += [{'kind': 'eps3', 't': list(t)} for t in itertools.product(range(-2, 6), repeat=3)]
     cases += [{'kind': 'eps4', 't': list(t)} for t in itertools.product(range(-2, 6), repeat=4)]
+    for it in ('uint8', 'uint16', 'uint32', 'uint64', 'int8', 'int64', 'float64'):
+        cases += [{'kind': 'eps3', 't': list(t), 'itype': it} for t in itertools.product(range(0, 5), repeat=3)]
+    for it in ('uint8', 'uint64', 'int8'):
+        cases += [{'kind': 'eps4', 't': list(t), 'itype': it} for t in itertools.product(range(0, 5), repeat=4)]
+    for nt in ('uint8', 'uint16', 'uint32', 'uint64', 'int8', 'int64'):
+        cases += [{'kind': 'kn', 'n': n, 'x': x, 'ntype': nt} for n in range(0, 7) for x in (0.3, 2.0, 19.0)]
     for n in range(7):
         for x in [0.06, 0.2, 0.7, 1.0, 2.5, 5.0, 9.0, 14.0, 19.5]:
             cases.append({'kind': 'kn', 'n': n, 'x': x})
